@@ -14,6 +14,7 @@
 #include <cstdlib>
 #include <cstring>
 #include <igris/protocols/gstuff.h>
+#include <new>
 #include <type_traits>
 
 namespace gs
@@ -39,14 +40,30 @@ namespace gs
         return c;
     }
 
+    // The receiver object is constructed in storage pre-filled with 0x5A: a member that neither the constructor nor the
+    // set-up call initialises does not happen to be zero.
+    static gstuff_autorecv &construct_in_dirty_storage(void *store, const gstuff_context &ctx)
+    {
+        memset(store, 0x5A, sizeof(gstuff_autorecv));
+        return *new (store) gstuff_autorecv(ctx);
+    }
     struct CfgReceiver : Receiver
     {
-        gstuff_autorecv r;
+        alignas(gstuff_autorecv) unsigned char store_[sizeof(gstuff_autorecv)];
+        gstuff_autorecv &r;
         uint8_t *buf_;
         int cap_;
         Markers M_;
-        CfgReceiver(int codec, uint8_t *buf, int cap) : r(ctx_of(codec)), buf_(buf), cap_(cap), M_(cfg_markers(codec)) { r.init(buf, cap); }
-        CfgReceiver(const Markers &m, uint8_t *buf, int cap) : r(ctx_from(m)), buf_(buf), cap_(cap), M_(m) { r.init(buf, cap); }
+        CfgReceiver(int codec, uint8_t *buf, int cap)
+            : r(construct_in_dirty_storage(store_, ctx_of(codec))), buf_(buf), cap_(cap), M_(cfg_markers(codec))
+        {
+            r.init(buf, cap);
+        }
+        CfgReceiver(const Markers &m, uint8_t *buf, int cap) : r(construct_in_dirty_storage(store_, ctx_from(m))), buf_(buf), cap_(cap), M_(m)
+        {
+            r.init(buf, cap);
+        }
+        ~CfgReceiver() { r.~gstuff_autorecv(); }
         static Status norm(int st)
         {
             switch (st)
